@@ -100,12 +100,19 @@ def _job(args):
             p = os.path.join(scratch, f'c18_{idx}_{k}.py')
             wb = openpyxl.Workbook()
             wb.remove(wb.active)
-            for sh in rec['sheets']:
+            for si, sh in enumerate(rec['sheets']):
+                if rec.get('chartAt', 0) == si + 1:
+                    pending_chart = wb.create_chartsheet('Chart')          # a chart sheet among the tabs: not a worksheet
                 ws = wb.create_sheet(sh['title'])
                 for cell in sorted(sh['cells'], key=lambda q: (q['r'], q['c'])):
                     oc = ws.cell(row=cell['r'], column=cell['c'], value=planted(cell['k'], cell['c'], cell['r']))
                     if cell['k'] == 'eqtext':
                         oc.data_type = 's'
+            if rec.get('chartAt', 0):
+                from openpyxl.chart import BarChart, Reference
+                ch = BarChart()
+                ch.add_data(Reference(wb.worksheets[0], min_col=1, min_row=1, max_row=2))
+                pending_chart.add_chart(ch)
             wb.save(x)
             ev = {'sheets': rec['sheets'], 'titles': [], 'sizes': [], 'cells': [], 'err': ''}
             try:
@@ -204,7 +211,7 @@ def check(run):
     j = 0
     for rec, ev in zip(recs, evs):
         gap = any(len({x['r'] for x in s['cells']}) < s['size']['rows'] or len({x['c'] for x in s['cells']}) < s['size']['cols'] for s in rec['sheets'])
-        case = {'in': {'sheets': rec['sheets']}, 'kind': 'layout'}
+        case = {'in': {'sheets': rec['sheets'], 'chartAt': rec.get('chartAt', 0)}, 'kind': 'layout'}
         if ev['err']:
             run.judge(dict(case, obs=ev['err']), False, clause=f"reading the workbook failed: {ev['err']}", part='layout')
             continue
